@@ -10,8 +10,7 @@ ID = "C07"
 SUBCMD = "c07"
 IMPORTS = ["FileSet", "Grammar", "Engine", "EngineHarness", "HeapLog", "EngineH"]
 HARNESS = "c07_harness"
-COQ_TARGETS = ["EngineH.vo"]  # TEMP-DEV
-DEV = True  # TEMP-DEV
+COQ_TARGETS = ["EngineH.vo", "HeapLogProofs.vo", "EngineHProofs.vo", "Props/C07.vo"]
 STALL = 6
 CORRESPONDENCE = ("instrumented engine model (coq/EngineH.v: number of returned values, hash of their at-return renderings "
                   "incl. nil / single node / NodeList, cache-served answers, asked-again keys) = implementation")
